@@ -533,7 +533,7 @@ func ruleC08g(c *Ctx, rule string) {
 
 // ruleC08h: a row handed to a row consumer is the consumer's to keep.
 func ruleC08h(c *Ctx, rule string) {
-	c.describe(rule, "flow (ownership): the Vals slice an operator in package core passes to an OnRow callback is either the one it received from its own source for this row or one allocated during this call — never a buffer kept across rows (captured variable / field): consumers such as the CROSSTAB path of group.Iterate retain rows until the scan ends")
+	c.describe(rule, "flow (ownership): the Vals slice (or *FlatRow) an operator in package core passes to an OnRow (OnFlatRow) callback is either the one it received from its own source for this row or one allocated during this call — never a buffer kept across rows (captured variable / field): consumers such as the CROSSTAB path of group.Iterate retain rows until the scan ends")
 	n := 0
 	for _, fn := range c.P.ModFns {
 		if pkgOf(fn) != "z/core" {
@@ -541,12 +541,20 @@ func ruleC08h(c *Ctx, rule string) {
 		}
 		for _, call := range calls(fn) {
 			cc := call.Common()
-			if cc.IsInvoke() || cc.StaticCallee() != nil || typeStr(cc.Value.Type()) != "z/core.OnRow" || len(cc.Args) != 2 {
+			if cc.IsInvoke() || cc.StaticCallee() != nil {
+				continue
+			}
+			var v ssa.Value
+			switch {
+			case typeStr(cc.Value.Type()) == "z/core.OnRow" && len(cc.Args) == 2:
+				v = strip(cc.Args[1])
+			case typeStr(cc.Value.Type()) == "z/core.OnFlatRow" && len(cc.Args) == 1:
+				v = strip(cc.Args[0])
+			default:
 				continue
 			}
 			n++
 			c.touch(fn)
-			v := strip(cc.Args[1])
 			kind := "other"
 			switch x := v.(type) {
 			case *ssa.Parameter:
@@ -556,10 +564,13 @@ func ruleC08h(c *Ctx, rule string) {
 				_ = x
 			case *ssa.UnOp:
 				if x.Op == token.MUL {
-					cell := cellRoot(x.X)
-					if al, isAl := cell.(*ssa.Alloc); isAl && al.Parent() == fn {
+					if _, isElem := x.X.(*ssa.IndexAddr); isElem {
+						kind = "an element of a collection (one per row)"
+					} else if al, isAl := cellRoot(x.X).(*ssa.Alloc); isAl && al.Parent() == fn {
 						kind = "local"
-					} else {
+					} else if _, isFV := x.X.(*ssa.FreeVar); isFV {
+						kind = "kept across rows"
+					} else if _, isFA := x.X.(*ssa.FieldAddr); isFA {
 						kind = "kept across rows"
 					}
 				}
